@@ -8,7 +8,7 @@ Ops (one answer line each):
   L2 policy tree   ep <method> <url> r=<name:type:0|1,...|-> d=<name:0|1,...|->   -> ok
                    glob r=<...> d=<...>      -> ok
                    build [perm=<i,j,...>]    -> ok | err:dup | err:empty | err:wildcard | err:param
-                   disp <method> <url>       -> no-tree | unsupported | noop | early=<first remedy> n=<active remedies>
+                   disp <method> <url>       -> no-tree | unsupported | noop | early=<first remedy> n=<active on request leg> resp=<active on response leg>
                    req <method> <url>        -> no-tree | val=<0|1> pol=<url|-> rem=<names|-> grem=<..> diag=<..>
                                                 gdiag=<..> sd=<0|1> norm=<url> params=<k=v,...|->
 -/
@@ -90,11 +90,11 @@ def runStep (s : RunSt) (line : String) : RunSt × String :=
     match (kv ws "r").bind parseRemedies, (kv ws "d").bind parseDiags with
     | some rs, some ds =>
       ({ s with eps := s.eps ++ [mkEndpoint (pctDec m) (pctDec url) rs ds],
-                onlyFix := s.onlyFix && rs.all (·.type == 7) }, "ok")
+                onlyFix := s.onlyFix && rs.all (fun r => r.type == 7 || r.type == 8) }, "ok")
     | _, _ => (s, "bad-op")
   | "glob" :: ws =>
     match (kv ws "r").bind parseRemedies, (kv ws "d").bind parseDiags with
-    | some rs, some ds => ({ s with glob := ⟨rs, ds⟩, onlyFix := s.onlyFix && rs.all (·.type == 7) }, "ok")
+    | some rs, some ds => ({ s with glob := ⟨rs, ds⟩, onlyFix := s.onlyFix && rs.all (fun r => r.type == 7 || r.type == 8) }, "ok")
     | _, _ => (s, "bad-op")
   | "build" :: ws =>
     let perm := match kv ws "perm" with
@@ -111,17 +111,17 @@ def runStep (s : RunSt) (line : String) : RunSt × String :=
     | none => (s, "no-tree")
     | some pt => (s, fmtReq pt s.glob (pctDec m) (pctDec url))
   | ["disp", m, url] =>
-    -- runner.DispatchOnRequest with fixed-response remedies only: the first selected remedy answers,
-    -- every selected one is reported active
+    -- runner.DispatchOnRequest with fixed-response / retry remedies only: the first selected fixed-response
+    -- remedy answers; the early answer then runs through the response leg (retry remedies act there)
     match s.pt with
     | none => (s, "no-tree")
     | some pt =>
       if !s.onlyFix then (s, "unsupported") else
       let us := splitURL (pctDec url)
-      let (rem, grem) := getRemedies pt s.glob (pctDec m) us
       match dispatchFirst pt s.glob (pctDec m) us with
       | none => (s, "noop")
-      | some first => (s, s!"early={first} n={(rem ++ grem).length}")
+      | some first =>
+        (s, s!"early={first} n={dispatchActive pt s.glob (pctDec m) us} resp={dispatchRespActive pt s.glob (pctDec m) us}")
   | _ => (s, "bad-op")
 
 /-! ### judge -/
@@ -214,7 +214,8 @@ def judgeStep (s : JudgeSt) (op out : String) : JudgeSt :=
   | ["disp", m, url] =>
     match s.cur, kv (words out) "early" with
     | some r, some first =>
-      { s with cur := some { r with disps := r.disps ++ [⟨pctDec m, pctDec url, splitURL (pctDec url), first⟩] } }
+      { s with cur := some { r with disps := r.disps ++
+          [⟨pctDec m, pctDec url, splitURL (pctDec url), first, (kvNat (words out) "resp").getD 0⟩] } }
     | _, _ => s
   | _ => s
 
